@@ -437,6 +437,14 @@ func (w *World) ruleAlwaysWrites(r *Report, rule string) {
 			}
 		}
 		walk(fn.Blocks[0])
+		if !ok {
+			// the block-level walk joins paths: a helper's "handled" flag and what the
+			// helper wrote are correlated only path by path
+			if ok2, _ := w.pxAlwaysWrites(fn, aw, leaf); ok2 {
+				ok = true
+				delete(why, fn)
+			}
+		}
 		return ok
 	}
 	for changed := true; changed; {
